@@ -6916,19 +6916,21 @@ impl Machine {
         let seed = self.deref_register(1);
 
         match Number::try_from((seed, &self.machine_st.arena.f64_tbl)) {
+            // every integer is a valid seed: it is reduced modulo 2^64 (its low 64 bits in
+            // two's complement), so seeds outside 0..2^64 no longer panic
             Ok(Number::Fixnum(n)) => {
-                let n: u64 = Integer::from(n).try_into().unwrap();
+                let n: u64 = n.get_num() as u64;
                 let rng: StdRng = SeedableRng::seed_from_u64(n);
                 self.rng = rng;
             }
             Ok(Number::Integer(n)) => {
-                let n: u64 = (&*n).try_into().unwrap();
+                let n: u64 = &*n & u64::MAX;
                 let rng: StdRng = SeedableRng::seed_from_u64(n);
                 self.rng = rng;
             }
             Ok(Number::Rational(n)) => {
                 if n.denominator() == &UBig::ONE {
-                    let n: u64 = n.numerator().try_into().unwrap();
+                    let n: u64 = n.numerator() & u64::MAX;
                     let rng: StdRng = SeedableRng::seed_from_u64(n);
                     self.rng = rng;
                 }
